@@ -6,6 +6,8 @@
 import EinoV.Model.Engine
 import EinoV.Model.GraphBuild
 import EinoV.Proofs.C01
+import EinoV.Proofs.C01Refine
+import EinoV.Spec.Superstep
 import EinoV.Gen.FactsC01
 import EinoV.Expected.C01
 
@@ -19,6 +21,55 @@ theorem facts_match :
     FactsC01.stepGuardOp = Expected.C01.stepGuardOp ∧
     FactsC01.stepGuardOnlyNonDag = true ∧
     FactsC01.needAllIsNotEager = true := by decide
+
+/-- **pregel_refines_superstep.** For every runner in any-predecessor mode whose node keys
+    are distinct (and differ from END) — cyclic or not, any branches, any fan-in —, every node
+    function, every input and every order in which the nodes of a step complete, the run
+    computed by the engine (write maps keyed by target and sender, data-predecessor filter,
+    channel report / get / clear, END detection) is exactly the run of the superstep
+    specification `Spec.run` (EinoV/Spec/Superstep.lean): every node that was sent at least one
+    value runs exactly once in the next step on the merge of exactly those values, branch
+    conditions decide which targets receive the value, the merged value delivered to END in the
+    first step in which END receives one is the result — same result or error class, same
+    per-step trace. -/
+theorem pregel_refines_superstep {V} (ops : ValOps V) (r : Runner V) (h : r.dag = false)
+    (hk : (Spec.keys r).Nodup) (sched : Sched V) (hf : sched.Fair) (x : V) :
+    runS ops r sched x = Spec.run ops r sched x :=
+  run_pregel ops r h hk sched hf x
+
+/-- **spec_step_exact** (what `Spec.next` says, spelled out). After a step in which the
+    finished tasks sent `sent`, node `t` is scheduled with input `v` exactly when `t` is a
+    node (or END) and `v` is the single value / the merge of exactly the values sent to `t`
+    by its data predecessors; a node that was sent nothing is not scheduled. -/
+theorem spec_step_exact {V} (ops : ValOps V) (r : Runner V) (sent : List (Spec.Sent V)) (t : Key) (v : V) :
+    (t, v) ∈ ((Spec.keys r).map (fun t => (t, collect ops ((Spec.inbox r sent t).map (·.2))))).filterMap
+        (fun g => match g.2 with | .ready v => some (g.1, v) | _ => none)
+      ↔ t ∈ Spec.keys r ∧ collect ops ((Spec.inbox r sent t).map (·.2)) = .ready v := by
+  simp only [List.mem_filterMap, List.mem_map]
+  constructor
+  · rintro ⟨g, ⟨t', ht', rfl⟩, hg⟩
+    simp only at hg
+    cases hc : collect ops ((Spec.inbox r sent t').map (·.2)) with
+    | ready w => simp [hc] at hg; obtain ⟨rfl, rfl⟩ := hg; exact ⟨ht', hc⟩
+    | notReady => simp [hc] at hg
+    | mergeErr => simp [hc] at hg
+  · rintro ⟨ht, hc⟩
+    exact ⟨(t, collect ops ((Spec.inbox r sent t).map (·.2))), ⟨t, ht, rfl⟩, by simp [hc]⟩
+
+/-- a node that was sent nothing is not scheduled; one value is passed on as is -/
+theorem collect_cases {V} (ops : ValOps V) : collect ops ([] : List V) = .notReady ∧
+    ∀ v, collect ops [v] = .ready v := ⟨rfl, fun _ => rfl⟩
+
+/-- every runner the builder produces from distinct node keys (none of them END) meets the
+    hypothesis of `pregel_refines_superstep` -/
+theorem compile_keys_nodup {V} (slack : Nat) (g : GraphDef V) (h : (g.nodes.map (·.1) ++ [END]).Nodup) :
+    (Spec.keys (compile slack g)).Nodup := by
+  have : (compile slack g).nodes.map (·.key) = g.nodes.map (·.1) := by
+    simp [compile, List.map_map, Function.comp]
+  unfold Spec.keys
+  rw [this]; exact h
+
+theorem sched_id_fair {V} : (Sched.id : Sched V).Fair := fun _ _ => List.Perm.refl _
 
 /-- **pregel_steps_le.** A run in any-predecessor mode never executes more supersteps than
     the configured limit — for every runner (cyclic or not), every node function, every input, every completion order. -/
@@ -70,6 +121,8 @@ def cyc : GraphDef Nat :=
 
 example : (run natOps (compile 10 cyc) 1).errCls? = some .maxSteps := by decide
 example : (run natOps (compile 10 cyc) 1).trace.length = 4 := by decide
+/-- the hypotheses of the refinement theorem hold for this cyclic runner -/
+example : (compile 10 cyc).dag = false ∧ (Spec.keys (compile 10 cyc)).Nodup := by decide
 
 /-- a chain start → a → end returns in one step -/
 def lin : GraphDef Nat :=
